@@ -8,7 +8,8 @@ const RULE: &str = "rule lists of 1-3 rules (full-grammar generator biased to al
 const ERR_RULES: [&str; 8] = ["s > [αvoice]", "a > *", "% > * / _#", "k > [+place]", "V > [-long, +overlong]", "{p, t} > {b}", "V > 1", "* > [+nasal] / a_"];
 
 /// `split`: every rule is a rule group of its own (otherwise all rules form one group)
-pub struct Case { pub rules: Vec<String>, pub lines: Vec<String>, pub order: Vec<usize>, pub split: bool }
+/// `from`: romanisers (now and then one that prints a vowel as nothing, so that a word of a phrase can come out empty)
+pub struct Case { pub rules: Vec<String>, pub lines: Vec<String>, pub order: Vec<usize>, pub split: bool, pub from: Vec<String> }
 
 pub(crate) fn gen(r: &mut Rng) -> Case {
     let mut rules: Vec<String> = Vec::new();
@@ -16,7 +17,10 @@ pub(crate) fn gen(r: &mut Rng) -> Case {
         if r.chance(1, 6) { rules.push(r.pick(&ERR_RULES).to_string()) } else { rules.push(plain(&rand_rule(r, &RuleCfg::default()))) }
     }
     let wc = WordCfg::default();
-    let pool: Vec<String> = (0..r.range(1, 5)).map(|_| if r.chance(1, 10) { ["a", "s", "k", "sa"][r.below(4)].to_string() } else { rand_word(r, &wc) }).collect();
+    let silent = if r.chance(1, 8) { Some(*r.pick(&["a", "i", "u", "e", "o"])) } else { None };
+    let from: Vec<String> = silent.map(|v| vec![format!("{v} > *")]).unwrap_or_default();
+    let mut pool: Vec<String> = (0..r.range(1, 5)).map(|_| if r.chance(1, 10) { ["a", "s", "k", "sa"][r.below(4)].to_string() } else { rand_word(r, &wc) }).collect();
+    if let Some(v) = silent { pool.push(v.to_string()); pool.push(format!("t{v}")); }
     let mut lines: Vec<String> = Vec::new();
     for _ in 0..r.range(1, 8) {
         let mut l = r.pick(&pool).clone();
@@ -27,19 +31,19 @@ pub(crate) fn gen(r: &mut Rng) -> Case {
     let mut order: Vec<usize> = (0..lines.len()).collect();
     r.shuffle(&mut order);
     if r.chance(1, 3) { order.truncate(r.range(1, order.len())); }
-    Case { rules, lines, order, split: r.chance(1, 2) }
+    Case { rules, lines, order, split: r.chance(1, 2), from }
 }
 
 fn kind_of(x: &Result<Vec<String>, Applied>) -> String { match x { Ok(v) => format!("Ok{v:?}"), Err(a) => a.tag() } }
 
 pub fn judge(rep: &mut Report, c: &Case) {
     let g: Vec<asca::RuleGroup> = if c.split { c.rules.iter().map(|x| asca::RuleGroup::from_rules(vec![x.clone()])).collect() } else { one_group(&c.rules) };
-    let cj = || json!({"rules": c.rules, "lines": c.lines, "order": c.order, "split": c.split});
+    let cj = || json!({"rules": c.rules, "lines": c.lines, "order": c.order, "split": c.split, "from": c.from});
     rep.eval(1);
     // per-line runs
-    let singles: Vec<Result<Vec<String>, Applied>> = c.lines.iter().map(|l| run_pub(&g, &[l.clone()], &[], &[])).collect();
+    let singles: Vec<Result<Vec<String>, Applied>> = c.lines.iter().map(|l| run_pub(&g, &[l.clone()], &[], &c.from)).collect();
     if let Some(Err(Applied::Abort(s))) = singles.iter().find(|x| matches!(x, Err(Applied::Abort(_)))) { rep.abort(s.clone(), cj); return }
-    let whole = run_pub(&g, &c.lines, &[], &[]);
+    let whole = run_pub(&g, &c.lines, &[], &c.from);
     if let Err(Applied::Abort(s)) = &whole { rep.abort(s.clone(), cj); return }
     let all_ok = singles.iter().all(|x| x.is_ok());
     if all_ok {
@@ -55,7 +59,7 @@ pub fn judge(rep: &mut Report, c: &Case) {
         // permutation / sub-list
         let sub: Vec<String> = c.order.iter().map(|i| c.lines[*i].clone()).collect();
         let exp_sub: Vec<String> = c.order.iter().map(|i| exp[*i].clone()).collect();
-        match run_pub(&g, &sub, &[], &[]) {
+        match run_pub(&g, &sub, &[], &c.from) {
             Ok(got) => if got != exp_sub { rep.violation("permutation".into(), || json!({"case": cj(), "expected": exp_sub, "observed": got})); },
             Err(Applied::Abort(s)) => rep.abort(s, cj),
             Err(e) => { let t = e.tag(); rep.violation("permuted-list-fails".into(), || json!({"case": cj(), "observed": t})); }
@@ -64,13 +68,14 @@ pub fn judge(rep: &mut Report, c: &Case) {
         for (i, l) in c.lines.iter().enumerate() {
             if !l.contains(' ') { continue }
             let parts: Vec<String> = l.split(' ').map(|s| s.to_string()).collect();
-            let each: Vec<Result<Vec<String>, Applied>> = parts.iter().map(|p| run_pub(&g, &[p.clone()], &[], &[])).collect();
+            let each: Vec<Result<Vec<String>, Applied>> = parts.iter().map(|p| run_pub(&g, &[p.clone()], &[], &c.from)).collect();
             if each.iter().all(|x| x.is_ok()) {
                 let joined = each.iter().map(|x| x.as_ref().ok().unwrap()[0].clone()).collect::<Vec<_>>().join(" ");
                 // the joiner trims the end of the line, so a phrase ending in an empty word is not judged
                 // (a word the rules reduce to nothing is C08's business, and the joiner trims it away at the end of a line)
-                let no_empty = each.iter().all(|x| !x.as_ref().ok().unwrap()[0].is_empty());
-                if parts.iter().all(|p| !p.is_empty()) && no_empty && joined != exp[i] { rep.violation("phrase".into(), || json!({"case": cj(), "line": i, "expected": joined, "observed": exp[i]})); }
+                // (a word may come out empty - deleted by a rule, or printed as nothing by a romaniser: it still takes its place in the
+                //  join; only the end of the line is trimmed, as the program has always done)
+                if parts.iter().all(|p| !p.is_empty()) && joined.trim_end() != exp[i].trim_end() { rep.violation("phrase".into(), || json!({"case": cj(), "line": i, "expected": joined, "observed": exp[i]})); }
                 rep.obs("phrases_checked", 1);
             }
         }
@@ -104,6 +109,6 @@ pub fn explore(ctx: &Ctx, shard: usize, n: usize) -> Report {
 pub fn replay(_ctx: &Ctx, case: &Value) -> Report {
     let mut rep = Report::new(RULE);
     let order: Vec<usize> = case["order"].as_array().map(|a| a.iter().map(|x| x.as_u64().unwrap_or(0) as usize).collect()).unwrap_or_default();
-    judge(&mut rep, &Case { rules: jstrs(case, "rules"), lines: jstrs(case, "lines"), order, split: case["split"].as_bool().unwrap_or(false) });
+    judge(&mut rep, &Case { rules: jstrs(case, "rules"), lines: jstrs(case, "lines"), order, split: case["split"].as_bool().unwrap_or(false), from: jstrs(case, "from") });
     rep
 }
